@@ -314,7 +314,15 @@ func c12Op(cache *cdi.Cache, kind string, r *rand.Rand, dirs []string, w int, mk
 		}
 		// the first directory stays first: it tags the cache for the hooks
 		nd = append([]string{dirs[0]}, nd...)
-		switch r.Intn(3) {
+		switch r.Intn(4) {
+		case 3:
+			// no directories at all for a moment (writes and removals are refused then),
+			// the next reconfiguration brings them back
+			if chance(r, 50) {
+				cache.Configure(cdi.WithSpecDirs())
+				break
+			}
+			fallthrough
 		case 0:
 			cache.Configure(cdi.WithSpecDirs(nd...))
 		case 1:
